@@ -1057,12 +1057,16 @@ impl<Writer: Write> Muxer<Writer> {
                 // Use VP9 keyframe detection
                 let is_key = is_vp9_keyframe(data).unwrap_or(false);
 
-                // INV-104: VP9 keyframe detection must handle invalid frames gracefully
-                assert_invariant!(
-                    is_key || data.len() >= 3,
-                    "VP9 keyframe detection requires minimum frame size",
-                    "api::is_keyframe::vp9"
-                );
+                // INV-104: VP9 keyframe detection must handle invalid frames gracefully.
+                // Frames shorter than the 3-byte marker are simply "not a keyframe"; the
+                // invariant only makes sense (and is only evaluated) for longer input.
+                if data.len() >= 3 {
+                    assert_invariant!(
+                        is_key || data.len() >= 3,
+                        "VP9 keyframe detection requires minimum frame size",
+                        "api::is_keyframe::vp9"
+                    );
+                }
 
                 is_key
             }
